@@ -70,34 +70,42 @@ pub fn cur_tid() -> usize {
     cur().map(|c| c.1).unwrap_or(0)
 }
 
-/// Word encoding: plain number when small, otherwise `{q,o}` = q*2^63 + o, otherwise `{q:-1,raw}`.
+/// Word encoding (all JSON numbers stay below 2^31 because TLC integers are 32-bit):
+///   v < 2^30                      -> v
+///   v = 2^64 - k, k <= 2^20       -> TOP - k        (usize::MAX -> TOP - 1)
+///   v = 2^63 + d, |d| <= 2^20     -> MID + d
+///   anything else                 -> OTHER
+pub const TOP: i64 = 2_000_000_000;
+pub const MID: i64 = 1_500_000_000;
+pub const OTHER: i64 = 1_200_000_000;
+
 pub fn w(v: usize) -> Value {
     if v < (1 << 30) {
         return json!(v);
     }
     let v = v as i128;
-    let half = 1i128 << 63;
-    let q = (v + (1i128 << 62)) >> 63;
-    let o = v - q * half;
-    if o.abs() < (1 << 30) {
-        json!({"q": q as i64, "o": o as i64})
-    } else {
-        json!({"q": -1, "raw": v.to_string()})
+    let k = (1i128 << 64) - v;
+    if k <= (1 << 20) {
+        return json!(TOP - k as i64);
     }
+    let d = v - (1i128 << 63);
+    if d.abs() <= (1 << 20) {
+        return json!(MID + d as i64);
+    }
+    json!(OTHER)
 }
 
 /// Decoding of the word encoding (scenario input).
 pub fn unw(v: &Value) -> usize {
-    match v {
-        Value::Number(n) => n.as_u64().expect("word") as usize,
-        Value::Object(m) => {
-            let q = m["q"].as_i64().expect("q") as i128;
-            let o = m["o"].as_i64().expect("o") as i128;
-            let x = q * (1i128 << 63) + o;
-            assert!((0..=(u64::MAX as i128)).contains(&x), "word out of range");
-            x as usize
-        }
-        _ => panic!("bad word {v}"),
+    let n = v.as_i64().expect("word");
+    if n < (1 << 30) {
+        n as usize
+    } else if n > TOP - (1 << 21) {
+        ((1i128 << 64) - (TOP - n) as i128) as usize
+    } else if (n - MID).abs() <= (1 << 20) {
+        ((1i128 << 63) + (n - MID) as i128) as usize
+    } else {
+        panic!("bad word {n}")
     }
 }
 
